@@ -70,6 +70,8 @@ class SubCheck:
     doc: str = ""
     # optional: cases that must always be executed first (hand-written corner cases)
     explicit: Optional[Callable[[], Iterable[dict]]] = None
+    # enum mode: is the enumerated list the COMPLETE finite space described in `doc` for that tier?
+    exhaustive: dict = dataclasses.field(default_factory=lambda: {"quick": True, "thorough": True})
 
 
 def canonical(case) -> str:
